@@ -283,3 +283,32 @@ Fixpoint ops_valid (ops : list op) (w : net) : Prop :=
   | [] => True
   | o :: r => op_valid w o /\ match apply_op w o with Ok w1 => ops_valid r w1 | Err _ => True end
   end.
+
+(* states reachable from the empty network by valid operation sequences *)
+Definition reachable (w : net) : Prop := exists ops, ops_valid ops empty_net /\ run ops empty_net = Ok w.
+
+(* ---- specification vocabulary used by the theorems ------------------------------------------------------ *)
+(* reachability along a relation given by neighbour lists: one or more steps *)
+Inductive rch (nb : nat -> list nat) : nat -> nat -> Prop :=
+| rch1 a b : In b (nb a) -> rch nb a b
+| rchS a c b : In c (nb a) -> rch nb c b -> rch nb a b.
+(* reachability in the network: a path of one or more arcs (arcs = successor lists) *)
+Definition path (w : net) : nat -> nat -> Prop := rch (succs_of w).
+(* a renaming dict read as a total function (identity off its keys) and the renamed node / arc *)
+Definition mf (m : list (nat * nat)) (x : nat) : nat := match lookup m x with Some y => y | None => x end.
+Definition rn (m : list (nat * nat)) (n : node) : node :=
+  mkNode (mf m (nid n)) (map (mf m) (preds n)) (map (mf m) (succs n))
+         (map (fun p => if Z.eqb p (dummy_idx (nid n)) then dummy_idx (mf m (nid n)) else p) (prods n)) (ext n) (dem n).
+Definition ren_edge (f : nat -> nat) (e : nat * nat) := (f (fst e), f (snd e)).
+Definition edge_dec : forall x y : nat * nat, {x = y} + {x <> y}.
+Proof. decide equality; apply Nat.eq_dec. Defined.
+(* the structural invariant: distinct indices; b occurs in succs(a) as often as a in preds(b); end points are nodes *)
+Definition idsL (l : list node) := map nid l.
+Definition findn (l : list node) (i : nat) := find (fun n => nid n =? i) l.
+Definition Sof (l : list node) i := match findn l i with Some n => succs n | None => [] end.
+Definition Pof (l : list node) i := match findn l i with Some n => preds n | None => [] end.
+Definition InvL (l : list node) : Prop :=
+  NoDup (idsL l) /\
+  (forall a b, count_occ Nat.eq_dec (Sof l a) b = count_occ Nat.eq_dec (Pof l b) a) /\
+  (forall a b, In b (Sof l a) -> In b (idsL l)).
+Definition Inv (w : net) : Prop := InvL (nodes w).
